@@ -47,7 +47,7 @@ def main():
         touched = [f for f in files.split() if f]
         only_fsic = bool(touched) and all(f.startswith('fsic/') for f in touched)
         pat_rc, pat_out = sh(['timeout', '600', PY, os.path.join(s, 'demo.py')], cwd=repo, env=env)
-        _, suite = sh(['/tmp/seedtools/runtests.sh', repo])
+        _, suite = sh([os.path.join(os.path.dirname(os.path.abspath(__file__)), 'seedtools', 'runtests.sh'), repo])
         suite_ok = 'SUITE-OK' in suite
         ok = clean_rc == 0 and ap_rc == 0 and only_fsic and pat_rc not in (0, 124) and suite_ok
         print('%-8s clean=%s apply=%s files=%s patched=%s suite=%s -> %s' % (sid, clean_rc, ap_rc, touched, pat_rc, 'OK' if suite_ok else 'BROKEN', 'KEEP' if ok else 'DROP'))
